@@ -61,6 +61,7 @@ func init() {
 			{ID: "C20.10", Desc: "the stale answer does not depend on the state of the caller's context", Run: func(c *Ctx) { ruleForegroundIgnoresCallerContext(c, "C20.10") }, MinSites: 1},
 			{ID: "C20.11", Desc: "the one background revalidation takes effect: its 304 is recognised by comparing the validators that were sent", Run: func(c *Ctx) { ruleBackground304SelectsEntry(c, "C20.11") }, MinSites: 1},
 			{ID: "C20.12", Desc: "every stored validator is sent, so that the background 304 is recognised by the validators that were sent", Run: func(c *Ctx) { ruleEachValidatorOnItsOwn(c, "C20.12") }, MinSites: 1},
+			{ID: "C20.13", Desc: "a background response that is dropped is closed (no connection goroutine outlives the background request)", Run: func(c *Ctx) { ruleDroppedResponseIsClosed(c, "C20.13") }, MinSites: 1},
 		},
 	})
 }
